@@ -291,11 +291,14 @@ class RefInst:
         ex = {"event": ev, "items": [], "kwargs": er.get("kwargs", {}), "args": er.get("args", []),
               "src": self.state, "trans": None}
         execs.append(ex)
+        if isinstance(self.state, dict):
+            # the model holds a value that maps to no state: every event fails on reading it
+            raise RefRaise({"cls": "InvalidStateValue", "value": self.state.get("$invalid")})
         if ev == "__initial__":
             dst = self.start_state()
             ex["dst"] = dst
             ex["trans"] = -1
-            self.state = dst
+            self._write(dst)
             self._run_group("enter", None, er, ex, view=dst, src="", dst=dst)
             self.activated = True
             return SENT
@@ -319,7 +322,7 @@ class RefInst:
             if not t.get("internal"):
                 self._run_group("exit", t, er, ex, view=src, src=src, dst=dst)
             res = res + self._run_group("on", t, er, ex, view=src, src=src, dst=dst)
-            self.state = dst
+            self._write(dst)
             if not t.get("internal"):
                 self._run_group("enter", t, er, ex, view=dst, src=src, dst=dst)
             self._run_group("after", t, er, ex, view=dst, src=src, dst=dst)
@@ -333,6 +336,13 @@ class RefInst:
         if not self.allow:
             raise RefRaise({"cls": "TransitionNotAllowed", "event": ev, "state": src})
         return None
+
+    def _write(self, dst):
+        """The single assignment of the model field; storage faults are positions in the write count."""
+        n = self.ref.count_write(self.model_tag, self.epoch)
+        if n is not None:
+            raise RefRaise({"cls": "SimStorageError", "sim_id": ["storage", self.model_tag, self.epoch, 0, n]})
+        self.state = dst
 
     def _guard_faults(self, t, gi):
         """An injected exception in a guard (only generated for 'solo' guards, see C04)."""
@@ -456,9 +466,17 @@ class Ref:
         self.gv = scenario.get("gv", {})
         self.jc = {}
         self.ambiguous = False
+        self.writes = {}
         self.insts = {}
         self.model_state = {}
         self.sidx = {rp.name: {vkey(rp.value_of[s]): i for i, s in enumerate(rp.sid)} for rp in self.progs}
+
+    def count_write(self, tag, epoch):
+        n = self.writes.get(tag, 0)
+        self.writes[tag] = n + 1
+        if n in (self.sc.get("storage_faults", {}).get(tag) or ()):
+            return n
+        return None
 
     def rule(self, cbid, tag, epoch, j, kwargs=None, dp=0):
         rules = self.beh.get(cbid)
@@ -545,6 +563,62 @@ class Ref:
             out["exc"] = e.desc
         out["state"] = inst.state
         return out
+
+    def op_activate2(self, op, epoch):
+        return self.op_activate(op, epoch)
+
+    def op_send2(self, op, epoch):
+        inst = self.insts[op["inst"]]
+        inst.epoch = epoch
+        execs = []
+        out = {"res": None, "exc": None, "execs": execs}
+        for o in (op["a"], op["b"]):
+            inst.queue.append({"event": o["event"], "args": list(o.get("args") or []),
+                               "kwargs": dict(o.get("kwargs") or {})})
+        try:
+            inst._drain(execs)
+        except RefRaise as e:
+            out["exc"] = e.desc
+        out["state"] = inst.state
+        return out
+
+    def op_write(self, op, epoch):
+        inst = self.insts[op["inst"]]
+        rp = inst.rp
+        out = {"res": None, "exc": None, "execs": []}
+        how = op["how"]
+        new = None
+        if how == "cs":
+            new = op["state_id"]
+        else:
+            key = vkey(op["value"])
+            if key in rp.id_of_value:
+                new = rp.id_of_value[key]
+            elif how == "csv":
+                out["exc"] = {"cls": "InvalidStateValue", "value": op["value"]}
+            else:
+                new = {"$invalid": op["value"]}
+        if new is not None:
+            n = self.count_write(inst.model_tag, epoch)
+            if n is not None:
+                out["exc"] = {"cls": "SimStorageError", "sim_id": ["storage", inst.model_tag, epoch, 0, n]}
+            else:
+                inst.state = new
+        out["state"] = inst.state
+        return out
+
+    def op_clone(self, op, epoch):
+        import copy
+
+        a = self.insts[op["inst"]]
+        b = RefInst(self, op["as"], a.rp, {"rtc": a.rtc, "allow": a.allow, "start_value": a.start_value,
+                                          "model_tag": op["as"]}, list(a.roles), list(a.late))
+        b.engine = a.engine
+        b.queue = copy.deepcopy(a.queue)
+        b.activated = a.activated
+        self.model_state[op["as"]] = copy.deepcopy(a.state)
+        self.insts[op["as"]] = b
+        return {"res": None, "exc": None, "execs": [], "state": a.state}
 
     def op_add_listener(self, op, epoch):
         inst = self.insts[op["inst"]]
